@@ -7,7 +7,7 @@ deno_graph's own obligations (the decoder itself is the deno_media_type / encodi
  * mirsym: JsModule::size / JsonModule::size report exactly the byte length of the stored text for every decoded kind, and
    new_source_with_text hands the decoder the header charset when one is given and the detected charset otherwise, and stores
    exactly the decoder's text and kind (or a Decode error)."""
-import z3, os, time
+import z3, os, time, re
 from ..engine import *
 from ..models import *
 from ..world import Sym
@@ -17,6 +17,7 @@ from ..harness import Query
 ID = 'C20'
 ASSUMPTIONS = [
     'the decoder (deno_media_type::encoding::decode_arc_source_detail, encoding_rs) is a dependency: its contract on the decoded-kind marker is assumed, not verified',
+    'which charset labels the decoder supports is environment (arbitrary); an unsupported label makes the decoder fail (its contract)',
     'Kani harnesses range over ARBITRARY text bytes (a superset of valid UTF-8) of bounded length; charset detection and header parsing are string code outside this check',
 ]
 KANI_QUICK = ['unchanged_returns_exactly_the_loader_bytes', 'changed_returns_nothing', 'only_utf8_bom_len0', 'only_utf8_bom_len1', 'only_utf8_bom_len2', 'only_utf8_bom_len3']
@@ -63,6 +64,10 @@ def build(mir, cube):
         eng.cfg['scheme'] = [sym.bv('specifier_scheme', 8, lt=len(SCHEMES))]
         eng.cfg.update(decode_ok_tag=sym.bv('decode_result', 8, lt=2), decoded_len=sym.bv('decoded_len', 64), decoded_kind=sym.bv('decoded_kind', 8, lt=3))
         header = opt(has_header, ref_to(SymStr('header-charset'), 'hdr'))
+        # the decoder's notion of a supported label is environment (deno_media_type): arbitrary for the header label; by its contract an unsupported
+        # label makes decode_arc_source_detail fail
+        label_ok = sym.bool('header_label_supported')
+        eng.cfg['stubs'] = [(re.compile(r'(.*::)?convert_to_utf8'), lambda e, c, a, g: EnumV(IF(label_ok, BV(0, 8), BV(1, 8)), {0: Agg([Opaque('converted text')]), 1: Agg([Opaque('unsupported label')])}))]
         name = mir.index[(None, None, 'new_source_with_text')]
         r = eng.call(name, [ref_to(UrlV(BV(0, 8)), 'spec'), Opaque('bytes'), header, none()], TRUE)
         calls = eng.cfg.get('decode_calls', [])
@@ -76,13 +81,14 @@ def build(mir, cube):
         class W:
             def to_json(self, m): return {'positions': True}
         class OpCs:
-            def op_json(self, m): return {'op': 'charset_choice', 'has_header': ev(m, has_header), 'scheme': SCHEMES[ev(m, eng.cfg['scheme'][0])] if SCHEMES[ev(m, eng.cfg['scheme'][0])] != 'other' else 'ext'}
-            def decode(self, m): return {'used': 'header-charset' if ev(m, used_header) else 'detected-charset'}
+            def op_json(self, m): return {'op': 'charset_choice', 'has_header': ev(m, has_header), 'label_supported': ev(m, label_ok), 'scheme': SCHEMES[ev(m, eng.cfg['scheme'][0])] if SCHEMES[ev(m, eng.cfg['scheme'][0])] != 'other' else 'ext'}
+            def decode(self, m): return {'used': 'error' if ev(m, eng.cfg['decode_ok_tag']) == 1 else 'header-charset' if ev(m, used_header) else 'detected-charset'}
         # natively replayable: the module decodes at all (decoder succeeds) and the scheme is one a module can be parsed under
-        real = [eng.cfg['decode_ok_tag'] == 0, z3.Or([eng.cfg['scheme'][0] == SCHEMES.index(x) for x in ('file', 'https', 'http')])]
+        real = [(eng.cfg['decode_ok_tag'] == 1) == z3.And(used_header, z3.Not(label_ok)), z3.Or([eng.cfg['scheme'][0] == SCHEMES.index(x) for x in ('file', 'https', 'http')])]
         qs.append(Query('decoder-is-called-exactly-once', z3.Not(z3.And(Or(g for g, _ in calls), And(z3.Not(z3.And(calls[i][0], calls[j][0])) for i in range(len(calls)) for j in range(i + 1, len(calls))))) if calls else z3.BoolVal(True)))
         qs.append(Query('header-charset-wins-else-detected-charset', Or(wrong), ops=[OpCs()], world=W(), realizable=real))
         qs.append(Query('witness-header-charset-used', z3.And(has_header, used_header), expect='sat', kind='witness', ops=[OpCs()], world=W(), realizable=real))
+        qs.append(Query('witness-unsupported-header-label-is-a-decode-error-not-a-fallback', z3.And(has_header, used_header, z3.Not(label_ok)), expect='sat', kind='witness', ops=[OpCs()], world=W(), realizable=real))
         ok = r.vars[0].f[0]
         txt = ok.f[st['ModuleTextSource'].index('text')]; kd = ok.f[st['ModuleTextSource'].index('decoded_kind')]
         qs.append(Query('stores-exactly-the-decoders-text-and-kind-or-an-error', z3.Or(r.is_variant(1) != (eng.cfg['decode_ok_tag'] == 1),
